@@ -44,7 +44,7 @@ pub fn shape_h(h: &History) -> String {
                     bld::Val::TupleType { .. } => "tuple_type",
                     bld::Val::Section { .. } => "section",
                     bld::Val::Type(_) => "type",
-                    bld::Val::Custom { scribble: true, .. } => "custom-scribbling",
+                    bld::Val::Custom { quirks, .. } if *quirks != 0 => "custom-with-quirks",
                     bld::Val::Custom { .. } => "custom",
                     bld::Val::Tlvs { .. } => "tlvs",
                 };
@@ -283,6 +283,62 @@ pub fn run(r: &mut Runner) -> &'static str {
         }
         None
     };
+    // the same call many times over: a revision counter, a generation number or a byte-sized tally that wraps after 256 or
+    // 65536 calls must not decide which length is in force
+    let many = |shard: usize, nshards: usize, st: &mut Stats, _stop: &std::sync::atomic::AtomicBool| -> Option<(History, Fail)> {
+        let counts: [usize; 9] = [255, 256, 257, 511, 512, 513, 65535, 65536, 65537];
+        let w = |i: usize| Op::Payload { v: bld::Val::Int { ty: 0, image: (i as u128) & 0xff }, by_ref: false };
+        let mut idx = 0usize;
+        for &n in &counts {
+            for variant in 0..5usize {
+                idx += 1;
+                if idx % nshards != shard {
+                    continue;
+                }
+                let mut ops: Vec<Op> = Vec::with_capacity(n + 4);
+                match variant {
+                    // n x set_length(i) after the first write, the last one decides
+                    0 => {
+                        ops.push(Op::SetLength(Some(1)));
+                        ops.push(w(0));
+                        ops.extend((0..n).map(|i| Op::SetLength(Some(100u16.wrapping_add(i as u16)))));
+                    }
+                    // ... before the first write
+                    1 => {
+                        ops.extend((0..n).map(|i| Op::SetLength(Some(7u16.wrapping_add(i as u16)))));
+                        ops.push(w(1));
+                    }
+                    // n x (Some, None) pairs: nothing is in force at the end
+                    2 => {
+                        ops.push(w(2));
+                        for i in 0..n.min(2000) {
+                            ops.push(Op::SetLength(Some(i as u16)));
+                            ops.push(Op::SetLength(None));
+                        }
+                        ops.push(w(3));
+                    }
+                    // n capacity hints around an explicit length
+                    3 => {
+                        ops.push(Op::SetLength(Some(9)));
+                        ops.push(w(4));
+                        ops.extend((0..n.min(3000)).map(|i| Op::Reserve(i % 7)));
+                        ops.push(w(5));
+                    }
+                    // n one-byte writes (for the large counts: past a full-size header; the statement leaves the outcome of
+                    // the writes open but not the length of a build that succeeds)
+                    _ => {
+                        ops.extend((0..n).map(w));
+                    }
+                }
+                let h = History { ctor: if variant % 2 == 0 { Ctor::New { vc: 0x21, afp: 0x00 } } else { Ctor::WithAddresses { vc: 0x20, proto: 1, addr: crate::oracle::v2::RefAddr2::V4 { src: [1, 2, 3, 4], dst: [5, 6, 7, 8], sport: 9, dport: 10 } } }, ops };
+                if let Err(f) = judge(&h, st) {
+                    return Some((h, f));
+                }
+            }
+        }
+        None
+    };
+    r.bulk("c09.many-calls", Some("255 / 256 / 257 / 511..513 / 65535..65537 repetitions of set_length(Some) after and before the first write, of (Some, None) pairs, of capacity hints under an explicit length, of one-byte writes"), &many, &judge);
     r.bulk("c09.huge-sections", Some("a single TLV-section payload of 3*2^16, 2^20+7, 2^24 (+5, +65535, +65536) and 2^25 (+12) bytes, with no explicit length and with one that is withdrawn before build"), &huge, &judge);
     "exploration"
 }
